@@ -77,6 +77,10 @@ func script(s Spec) string {
 	case "stop-fail":
 		// the failing command has stopped its scope gracefully before it reports the failure
 		body = []string{"probe --id=body.c1 --fail=stop-return"}
+	case "stop-ok":
+		// a command stops its scope gracefully and returns nil: nothing failed (a stopped scope holds no
+		// error), so this body has succeeded
+		body = []string{"probe --id=body.c1 --stop=1"}
 	case "kill":
 		// a command kills its scope and returns without an error of its own: a killed body has failed
 		body = []string{"probe --id=body.c1 --fail=kill", "probe --id=body.c2"}
@@ -230,7 +234,7 @@ func programs(thorough bool) []Spec {
 		b = 1
 	}
 	var ps []Spec
-	for _, body := range []string{"ok", "fail1", "fail2", "append", "nest-ok", "nest-fail", "nest-retfail", "nest-retok", "spawn-fail", "spawn-ok", "broken-quote", "unknown-cmd", "stop-fail", "kill"} {
+	for _, body := range []string{"ok", "fail1", "fail2", "append", "nest-ok", "nest-fail", "nest-retfail", "nest-retok", "spawn-fail", "spawn-ok", "broken-quote", "unknown-cmd", "stop-fail", "kill", "stop-ok"} {
 		for mask := 0; mask < 8; mask++ {
 			s := Spec{Body: body, Success: mask&1 != 0, Fail: mask&2 != 0, Finally: mask&4 != 0, Bound: b}
 			if strings.HasPrefix(body, "nest") {
@@ -239,7 +243,7 @@ func programs(thorough bool) []Spec {
 					continue
 				}
 			}
-			if body == "broken-quote" || body == "unknown-cmd" || body == "stop-fail" || body == "kill" {
+			if body == "broken-quote" || body == "unknown-cmd" || body == "stop-fail" || body == "kill" || body == "stop-ok" {
 				if mask != 7 && mask != 3 && !thorough {
 					continue
 				}
@@ -341,7 +345,7 @@ func replay(wj json.RawMessage) (*fw.Violation, error) {
 
 func init() {
 	fw.Register(&fw.Check{ID: "C16", Level: "model_checking",
-		Rule: "programs = body {succeeds, fails at command 1 / 2, appends an error, names an unknown command, breaks off inside a quoted argument, stops its scope and then fails, kills its scope without returning an error, spawns a nested task that succeeds / fails, in the self sandbox or in a sandbox that reports failure only through its return value, or two concurrent tasks one of which fails} x every subset of {success, fail, finally} handlers x one failing handler; the script `pip:try ...` followed by another command is fed to the real terminal loop of a mock application bootstrapped per execution, probe commands log begin/end; every schedule within the bound (quick: free context switches at blocking points; thorough: 1 preemption, nested bodies free switches only) with a happens-before state cache; oracle: which handlers ran, handler begin after the end of the body and of every task it spawned, error state of the surrounding scope, the script continuing after the block, no panic, no deadlock; for programs with a failing handler additionally reachability over the explored schedule set: some schedule runs the finally handler (resp. the matching handler when finally is the failing one). states = distinct schedule traces; plus 6 programs in which the try block runs inside a named pipeline that a second pipeline waits for (a contained body failure does not make the enclosing pipeline a failed prerequisite)",
+		Rule: "programs = body {succeeds, fails at command 1 / 2, appends an error, names an unknown command, breaks off inside a quoted argument, stops its scope and then fails, stops its scope gracefully and returns nil (a success), kills its scope without returning an error, spawns a nested task that succeeds / fails, in the self sandbox or in a sandbox that reports failure only through its return value, or two concurrent tasks one of which fails} x every subset of {success, fail, finally} handlers x one failing handler; the script `pip:try ...` followed by another command is fed to the real terminal loop of a mock application bootstrapped per execution, probe commands log begin/end; every schedule within the bound (quick: free context switches at blocking points; thorough: 1 preemption, nested bodies free switches only) with a happens-before state cache; oracle: which handlers ran, handler begin after the end of the body and of every task it spawned, error state of the surrounding scope, the script continuing after the block, no panic, no deadlock; for programs with a failing handler additionally reachability over the explored schedule set: some schedule runs the finally handler (resp. the matching handler when finally is the failing one). states = distinct schedule traces; plus 6 programs in which the try block runs inside a named pipeline that a second pipeline waits for (a contained body failure does not make the enclosing pipeline a failed prerequisite)",
 		Run: run, Replay: replay,
 		Assumptions: []string{"the finally handler is submitted first; when it fails the remaining handlers are not started (the handler failure is what is reported)", "accesses to objects outside the focus packages do not order executions in the happens-before cache (declared reduction)"}})
 }
